@@ -143,6 +143,53 @@ theorem move_no_abort (rb : RB) (dr sr : Rect) (hwf : RBCopy.WF rb) (hxl : rb.xl
   obtain ⟨rects, hca⟩ := clearArea_returns dr sr hin.2.2.2.2
   exact (move_result rb dr sr hwf hxl hxc hin.1 hin.2.1 hin.2.2.1 hin.2.2.2.1 hin.2.2.2.2 hca).flags
 
+/-! ## The destination rectangle: only its position is meaningful
+
+  `copy_spec` / `move_spec` above quantify over *every* destination rectangle `dr`; its `lines` / `cols` occur
+  nowhere in the specification (`selfCopyExpect`, `moveExpect` use `dr.top`, `dr.left` and the source's size).  The
+  statements below say so outright: a 1x1 "position" rectangle, an empty one or one larger than the source give the
+  same buffer, for every text of `copyrect` and every buffer (well-formed or not). -/
+
+/-- Copying reads only the position of the destination rectangle. -/
+theorem copy_dest_size_irrelevant (v : Variant) (rb : RB) (dr dr' sr : Rect) (ht : dr'.top = dr.top) (hl : dr'.left = dr.left) :
+    copy v rb dr' sr = copy v rb dr sr := by
+  unfold copy copyrect
+  rw [ht, hl]
+
+/-- So does moving — in particular the vacated area is computed from a source-sized rectangle at the
+    destination's position, never from the destination rectangle as passed. -/
+theorem move_dest_size_irrelevant (v : Variant) (rb : RB) (dr dr' sr : Rect) (ht : dr'.top = dr.top) (hl : dr'.left = dr.left) :
+    move v rb dr' sr = move v rb dr sr := by
+  unfold move clearArea
+  rw [copy_dest_size_irrelevant v rb dr dr' sr ht hl, ht, hl]
+
+/-- The specification does not mention the destination's size either. -/
+theorem expect_dest_size_irrelevant (rb : RB) (dr dr' sr : Rect) (ht : dr'.top = dr.top) (hl : dr'.left = dr.left) (L C : Int) :
+    selfCopyExpect rb dr' sr L C = selfCopyExpect rb dr sr L C ∧ moveExpect rb dr' sr L C = moveExpect rb dr sr L C := by
+  unfold moveExpect selfCopyExpect
+  rw [ht, hl]
+  exact ⟨rfl, rfl⟩
+
+/-- **Move with a destination rectangle of any size**: every cell shows what `moveExpect` says for the
+    source-sized destination at the same position; in particular a cell of the source that the source-sized
+    destination does not cover is skipped even when the rectangle passed as destination is larger and covers it,
+    and a freshly moved cell keeps the moved content even when the rectangle passed is smaller (1x1, empty). -/
+theorem move_spec_any_dest_size (rb : RB) (dr sr : Rect) (n c : Int) (hwf : RBCopy.WF rb) (hxl : rb.xlLine = 0) (hxc : rb.xlCol = 0)
+    (hin : Inside rb sr) :
+    ∀ L C, absContent (move Variant.repaired rb ⟨dr.top, dr.left, n, c⟩ sr) L C =
+      moveExpect rb ⟨dr.top, dr.left, sr.lines, sr.cols⟩ sr L C := by
+  intro L C
+  rw [move_dest_size_irrelevant Variant.repaired rb ⟨dr.top, dr.left, sr.lines, sr.cols⟩ ⟨dr.top, dr.left, n, c⟩ sr rfl rfl]
+  exact (move_spec rb _ sr hwf hxl hxc hin).1 L C
+
+theorem copy_spec_any_dest_size (rb : RB) (dr sr : Rect) (n c : Int) (hwf : RBCopy.WF rb) (hxl : rb.xlLine = 0) (hxc : rb.xlCol = 0)
+    (hin : Inside rb sr) :
+    ∀ L C, absContent (copy Variant.repaired rb ⟨dr.top, dr.left, n, c⟩ sr) L C =
+      selfCopyExpect rb ⟨dr.top, dr.left, sr.lines, sr.cols⟩ sr L C := by
+  intro L C
+  rw [copy_dest_size_irrelevant Variant.repaired rb ⟨dr.top, dr.left, sr.lines, sr.cols⟩ ⟨dr.top, dr.left, n, c⟩ sr rfl rfl]
+  exact (copy_spec rb _ sr hwf hxl hxc hin).1 L C
+
 /-! ## Blit -/
 
 /-- **Blit** overlays exactly the source's non-skipped cells (at the destination's translation, through the
@@ -283,7 +330,27 @@ theorem gen_tree_is_repaired :
     Gen.RBCopy.holdsStringRef = true := by
   decide
 
+/-- `copyrect()` reads only `top` and `left` of its destination rectangle, and `moverect()` subtracts the
+    source-sized rectangle at the destination's position from the source (what `clearArea` models) and skips every
+    rectangle that remains. -/
+theorem gen_dest_rect_position_only :
+    Gen.RBCopy.destSizeUnused = true ∧ Gen.RBCopy.moveKeepsSrcSizedDest = true := by
+  decide
+
 /-! ## Non-vacuity -/
+
+/-- A move one column to the left (source columns 2-4 of the erase run `[1,5)`) whose destination is given as a
+    1x1 "position" rectangle, or as a rectangle that covers the whole source: the freshly moved erase cells (1,2),
+    (1,3) - inside the source, outside a 1x1 destination - stay, and the vacated cell (1,4) - inside the 2x6
+    destination as passed - is skipped. -/
+example :
+    absContent (move Variant.repaired cexRun ⟨0, 1, 1, 1⟩ ⟨0, 2, 2, 3⟩) 1 2 = .erase {} ∧
+    absContent (move Variant.repaired cexRun ⟨0, 1, 1, 1⟩ ⟨0, 2, 2, 3⟩) 1 3 = .erase {} ∧
+    absContent (move Variant.repaired cexRun ⟨0, 1, 1, 1⟩ ⟨0, 2, 2, 3⟩) 1 4 = .skip ∧
+    absContent (move Variant.repaired cexRun ⟨0, 1, 2, 6⟩ ⟨0, 2, 2, 3⟩) 1 3 = .erase {} ∧
+    absContent (move Variant.repaired cexRun ⟨0, 1, 2, 6⟩ ⟨0, 2, 2, 3⟩) 1 4 = .skip ∧
+    Inside cexRun ⟨0, 2, 2, 3⟩ := by
+  refine ⟨?_, ?_, ?_, ?_, ?_, ?_⟩ <;> first | decide +kernel | (unfold Inside Rect.Nonempty; decide)
 
 /-- The hypotheses of `copy_spec` are inhabited by a buffer with a run that both rectangle edges cut, and the
     repaired copy puts the skipped cell where the as-found code left an erase cell. -/
